@@ -31,3 +31,12 @@ Ltac case_goal :=
   end.
 
 Ltac discr := match goal with H : _ = _ |- _ => discriminate H end.
+
+Global Arguments adj_inner : simpl never.
+Global Arguments adjacently_available_from : simpl never.
+Global Arguments loop_fuel : simpl never.
+Global Arguments set_scope : simpl never.
+Global Arguments adjacent_scope : simpl never.
+Global Arguments sremove : simpl never.
+Global Arguments info_eval : simpl never.
+Global Arguments eval_flag : simpl never.
